@@ -906,6 +906,11 @@ func (r *tsspFileReader) LoadComponents() error {
 	hitRatioStat.AddFileOpenTotal(1)
 	r.openMu.Lock()
 	defer r.openMu.Unlock()
+	// another goroutine may have loaded the components while this one waited for openMu: loading them again would
+	// rewrite the meta index and the compress mode under readers that already use them
+	if r.initialized() {
+		return nil
+	}
 
 	if !r.r.IsOpen() {
 		if err := r.loadDiskFileReader(); err != nil {
